@@ -16,7 +16,8 @@ LEVEL_TEXT = ("Held on the executions produced: for every generated (input, docu
               "the catalogue x every probe token x 2 suffixes, in document and fragment mode.  Exploration, not proof.")
 BUDGET_S = {"quick": 60, "thorough": 1200}
 RULE = ("cases = (input, mode in {document, fragment with an HTML context element}, scripting); inputs: directed walk "
-        "(context prefix x probe token x suffix), soup, structure-aware misnesting. distinct_nontrivial = distinct cases "
+        "(context prefix x probe token x suffix), families for the quirks-mode decision, the algorithms' loop bounds and the "
+        "frameset-ok flag, soup, structure-aware misnesting. distinct_nontrivial = distinct cases "
         "whose tree has at least 4 elements beyond html/head/body or whose input is longer than 20 characters.")
 ASSUMPTIONS = [
     "R-tree/R-tok are written from the 2020 text of the standard (DESIGN Appendix A); steps marked 'adopt' there follow html5lib and are not decided",
